@@ -136,12 +136,12 @@ def compare(case, impl, model):
     if impl.get("raise"):
         return [] if impl["raise"] == model.get("raise") else [f"init exception: impl {impl['raise']}"]
     a = _impl_seq(impl)
-    d_cur = _cmp_seq(a, model["seq"])
-    if d_cur:
-        d_fix = _cmp_seq(a, model["seq_fixed"])
-        if d_fix:
-            dis += ["object history (vs current run()): " + x for x in d_cur[:4]]
-            dis += ["object history (vs repaired run()): " + x for x in d_fix[:2]]
+    # /repo carries the repair of K6 (8f62f48): run() clears the outputs of an earlier run.
+    # The model of that run() is SnowObj.runFixed ("seq_fixed"); the pre-repair variant
+    # ("seq") is kept only for the counter-example theorem.
+    d_fix = _cmp_seq(a, model["seq_fixed"])
+    if d_fix:
+        dis += ["object history (vs run() with cleared outputs): " + x for x in d_fix[:4]]
     m = model.get("single")
     if m is None or dis:
         return dis
